@@ -221,7 +221,7 @@ P('C09', claimed=True, level='proof',
               '(prio, count) order for pairwise distinct counts (asserted as call precondition) - finite-set '
               'cardinality axioms, dict/itertools.count models. Priorities are finite reals.'))
 
-P('C10', claimed=True, level='other', contracts=['base_clock_sched', 'base_rng', 'base_stream', 'base_oscinterface'], drivers=['vf.drivers.C10'],
+P('C10', claimed=True, level='other', contracts=['base_clock_sched', 'base_rng', 'base_stream', 'base_oscinterface', 'base_clock_wake'], drivers=['vf.drivers.C10'],
   level_text=('The mode switch refines one contract: for SystemClock.sched/sched_abs, TempoClock.sched/'
               'sched_abs and AppClock.sched (NRT) both branches are proved to schedule the same task at the '
               'same logical time, and the NRT wake-up re-schedules at scheduled time + delta through the '
@@ -229,7 +229,10 @@ P('C10', claimed=True, level='other', contracts=['base_clock_sched', 'base_rng',
               'Differential run-time contract: generated programs are run once under NrtMain and once '
               'under RtMain with injected jitter (separate processes) and compared per routine and '
               'logical time; two fresh NRT runs must give byte-identical scores; seeded random streams '
-              'must not depend on other routines.'),
+              'must not depend on other routines. Discharged too: every change of a tempo clock\'s beat/second map (tempo '
+              'setter, etempo, beats setter) wakes the sleeping clock thread exactly once in real time - so that the '
+              'deadline computed from the OLD map is recomputed and a pending task runs when the non-real-time run '
+              'executes it - and notifies nothing in non-real time.'),
   level_note='Relational over two configurations and over schedules: bounded only (42 programs quick, 306 thorough).',
   unreached=['the RT side for all schedules'])
 
